@@ -200,7 +200,9 @@ def match_finding(findings, features: dict, signature: str):
 
 def _feat_eq(have, want):
     if isinstance(want, list):
-        return have in want
+        return any(_feat_eq(have, w) for w in want)
+    if isinstance(want, str) and want.endswith("*") and isinstance(have, str):
+        return have.startswith(want[:-1])
     return have == want
 
 
